@@ -26,13 +26,28 @@ var (
 	c01sendOnce sync.Once
 	c01sendCl   *fix.Cluster
 	c01sendN    int64
+	// trees wider than the 9-server cluster (fan-outs 9 … 33) run on a cluster of 34 servers, made on first use
+	c01sendWideOnce sync.Once
+	c01sendWideCl   *fix.Cluster
 )
+
+const c01sendWide = 34
 
 func c01send(c *h.Ctx, cs *h.Case) {
 	fixMu.Lock()
 	defer fixMu.Unlock()
 	c01sendOnce.Do(func() { c01sendCl = fix.NewCluster(9, false) })
 	cl := c01sendCl
+	if len(cs.Ops) > 0 {
+		if tk := strings.Fields(cs.Ops[0]); len(tk) == 5 && strings.Count(tk[2], ",")+1 > 9 {
+			if strings.Count(tk[2], ",")+1 > c01sendWide {
+				cs.Impl = append(cs.Impl, "bad-op")
+				return
+			}
+			c01sendWideOnce.Do(func() { c01sendWideCl = fix.NewCluster(c01sendWide, false) })
+			cl = c01sendWideCl
+		}
+	}
 	fix.ResetRecs()
 	defer fix.DoneAll()
 	var tree *onet.Tree
@@ -191,6 +206,29 @@ func c01send(c *h.Ctx, cs *h.Case) {
 
 func c01sendGen(c *h.Ctx, yield func(*h.Case)) {
 	r := c.Rng
+	// wide nodes: every child of a node with 9, 10, 17, 33 children hears of a send to the children — in sequence, in
+	// parallel (whatever batching the parallel variant uses) and of a broadcast; also one level down (node 1 of a
+	// two-level tree has the many children)
+	for _, f := range []int{9, 10, 17, 33} {
+		par := []string{"-"}
+		for i := 0; i < f; i++ {
+			par = append(par, "0")
+		}
+		ps := strings.Join(par, ",")
+		c.Count(fmt.Sprintf("class=send-wide fanout=%d", f))
+		yield(&h.Case{Class: "send-wide", Ops: []string{"c01 send " + ps + " 0 childrenpar", "c01 send " + ps + " 0 children", "c01 send " + ps + " 0 bcast",
+			"c01 send " + ps + " 0 childrenpar", fmt.Sprintf("c01 send %s %d parent", ps, f)}})
+	}
+	for _, f := range []int{12, 25} {
+		par := []string{"-", "0", "0"}
+		for i := 0; i < f; i++ {
+			par = append(par, "1")
+		}
+		ps := strings.Join(par, ",")
+		c.Count(fmt.Sprintf("class=send-wide fanout=%d level=1", f))
+		yield(&h.Case{Class: "send-wide", Ops: []string{"c01 send " + ps + " 1 childrenpar", "c01 send " + ps + " 0 childrenpar", "c01 send " + ps + " 1 children",
+			fmt.Sprintf("c01 send %s %d bcast", ps, f+2)}})
+	}
 	for n := 0; n < c01pick(c, 25, 400, 60); n++ {
 		k := 2 + r.Intn(7)
 		par := []string{"-"}
